@@ -8,7 +8,7 @@ TECH = "bounded symbolic execution of the real Python code (symx proxies) + z3 S
 
 CLAIMED = {
  "C05": dict(
-   text="For every resolution 0..30 one solver verdict per path covers all S of that resolution (up to 2^56 values), all 12 faces and 5 segments: id in [1,2^64), get_resolution(id)==r, deserialize(serialize(cell))==cell, equal ids => equal cells (same and different resolutions), S out of range always raises, get_num_cells(r) = 12*5*4^(r-1) with r symbolic. Bounded only by the type's own ranges; r=30 is a recorded known finding.",
+   text="For every resolution 0..30 one solver verdict per path covers all S of that resolution (up to 2^56 values), all 12 faces and 5 segments: id in [1,2^64), get_resolution(id)==r, deserialize(serialize(cell))==cell, equal ids => equal cells (same and different resolutions), S out of range always raises, get_num_cells(r) = 12*5*4^(r-1) with r symbolic; the ids enumerated from the world cell (r<=3) are get_num_cells(r) many, distinct and complete against a symbolic cell; a decoded cell is unaffected by later decodes; the 96 fixture ids are pushed through the symbolic machinery (conformance). Bounded only by the type's own ranges; r=30 is a recorded known finding.",
    ref="DESIGN.md §4 C05",
    note="Trusted: CPython running the real functions on symx proxies, z3, the interval/known-bits guard that ties 72/136-bit vectors to Python ints. Assumes only the validity predicate face 0..11, segment 0..4, 0<=S<4^(r-1). Negative S / out-of-range face are outside the documented domain."),
  "C06": dict(
@@ -44,11 +44,11 @@ CLAIMED = {
    ref="DESIGN.md §4 C15",
    note="Real-arithmetic semantics: IEEE rounding of ~30 operations and libm's sin/cos are covered by a stated budget (1e-14), not modelled; every counterexample is a candidate that is replayed in floats against the closed form before being reported."),
  "C16": dict(
-   text="The schedule is symbolic: every shared mutable container under a5.* is discovered and hooked, line events of the running call are the preemption points, a Boolean per point says 'other threads ran here' and reads of a shared numeric cell written earlier by the call return ite(preempted-in-between, arbitrary fresh value, own value); z3 decides result(schedule, interfering writes) == sequential result. Unit level: all vec3/vec2/quat functions, coordinate transforms, PentagonShape with fully symbolic inputs; SphericalPolygonShape/PolyhedralProjection on concrete input sets x symbolic schedule; API level: interference-window search on 42 concrete calls. Violations are replayed with a deterministic scheduler that runs a real interfering call at the reported line event. Found the shared scratch-vector defect (fixed in /repo 61b8696).",
+   text="The schedule is symbolic: every shared mutable container under a5.* is discovered and hooked, line events of the running call are the preemption points, a Boolean per point says 'other threads ran here' and reads of a shared numeric cell written earlier by the call return ite(preempted-in-between, arbitrary fresh value, own value); z3 decides result(schedule, interfering writes) == sequential result. Shared state is discovered, not listed: every module-level list/dict and every numeric attribute of the package's module-level singletons; only state written at run time is havocked. Unit level: all vec3/vec2/quat functions, coordinate transforms, the authalic/gnomonic singletons, PentagonShape with fully symbolic inputs; SphericalPolygonShape/PolyhedralProjection on concrete input sets x symbolic schedule. API level: 42 warm calls under the symbolic schedule plus the same calls from cold and from full caches with two structural obligations (objects complete before publication in shared state; shared caches insert-only). Violations are replayed with a deterministic scheduler that runs a real interfering call at the reported line event. Found the shared scratch-vector defect (fixed in /repo 61b8696).",
    ref="DESIGN.md §4 C16",
    note="Preemption at source-line granularity; interference over-approximated by arbitrary writes to shared numeric cells; object-valued cache slots rely on C17 (key-determined content); libm and symbolic products are uninterpreted functions; rebinding of module globals is outside."),
  "C17": dict(
-   text="Histories are handled by making the pre-state symbolic: (i) every shared numeric cell starts as an arbitrary residue and two runs with independent residues must agree (unit targets of C16); (ii) cache keys: two-call histories with independent symbolic (index, reflected, squashed, origin) on get_face_triangle/get_spherical_triangle with compute functions replaced by argument tokens and the cache list by a symbolic store - the second call must return its own key's value; (iii) f(x) then g(y) for the exported hierarchy functions on independent symbolic cells versus g(y) on the restored cold state, all discovered module-level containers snapshotted; (iv) aliasing: arguments untouched, results fresh, mutating a result does not affect the next call, on every symbolic path; (v) concrete warm-vs-cold API pairs (replay in a fresh process).",
+   text="Histories are handled by making the pre-state symbolic: (i) every shared numeric cell starts as an arbitrary residue and two runs with independent residues must agree (unit targets of C16); (ii) cache keys: two-call histories with independent symbolic (index, reflected, squashed, origin) on get_face_triangle/get_spherical_triangle with compute functions replaced by argument tokens and the cache list by a symbolic store - the second call must return its own key's value; (iii) f(x) then g(y) for the exported hierarchy functions on independent symbolic cells versus g(y) on the restored cold state, all discovered module-level containers snapshotted; (iv) authalic singleton and origin-table two-call histories (symbolic angles / all 12x12 face pairs); (v) aliasing: arguments untouched, results fresh, mutating a result does not affect the next call, on every symbolic path; (vi) concrete differential runs, stated as such: warm-vs-cold API pairs, the same index on all 60x59 (face,segment) pairs, two long call histories (s_to_anchor, lonlat_to_cell) compared with cold values; replays run the last call in a fresh interpreter.",
    ref="DESIGN.md §4 C17",
    note="Two-call histories (insert-only key-determined caches need two keys to collide); caches keyed by rendered strings are outside (str of a symbolic int is not modelled); the triangle-constants cache and the float API pairs are concrete differential runs, stated as such."),
  "C02": dict(
